@@ -48,6 +48,8 @@ type c03Spec struct {
 	NSets  int               `json:"sets"`
 	Loader string            `json:"loader"`
 	Shared bool              `json:"sets_share_one_loader_object"`
+	NLoad  int               `json:"loaders_per_set"`
+	OnDisk map[string]int    `json:"file_on_disk,omitempty"` // with two loaders: which disk holds each directory's files
 	Files  map[string]string `json:"files"`
 	Ops    []c03Op           `json:"ops"`
 	Pool   []string          `json:"ban_pool"`
@@ -463,6 +465,8 @@ func c03Gen(tp *Tapes) *c03Spec {
 	sp := &c03Spec{NSets: 1 + g.Draw(2), Files: map[string]string{}}
 	sp.Loader = []string{"virt", "http"}[g.Draw(2)]
 	sp.Shared = g.Draw(2) == 1
+	sp.NLoad = 1 + g.Draw(2)
+	sp.OnDisk = map[string]int{}
 	var allTags []string
 	for _, t := range pongo2.VerifRegisteredTags() {
 		if _, ok := c03TagSnippets[t]; ok {
@@ -491,6 +495,9 @@ func c03Gen(tp *Tapes) *c03Spec {
 		sp.Pool = append(sp.Pool, n)
 	}
 	nops := 3 + g.Draw(10)
+	if g.Draw(8) == 7 {
+		nops = 20 + g.Draw(30) // a long history: wear-out effects (leaked counters, filled tables) need many rejected creations
+	}
 	var creates []int
 	f := tp.Fault
 	for i := 0; i < nops; i++ {
@@ -575,6 +582,9 @@ func c03Gen(tp *Tapes) *c03Spec {
 			uh.str(fmt.Sprintf("%v|%s|%s|%v|%v|%s", u.IsTag, u.Target, u.Route, u.Wraps, u.Control, u.Operand))
 			op.Dir = fmt.Sprintf("u%x", uint64(uh)&0xffffff)
 			c03Build(&op, op.Dir, sp.Files)
+			if _, has := sp.OnDisk[op.Dir]; !has {
+				sp.OnDisk[op.Dir] = g.Draw(sp.NLoad)
+			}
 			if (op.Via == "FromFile" || op.Via == "FromCache" || op.Via == "RenderTemplateFile") && f.Draw(5) == 4 {
 				op.Fault = true
 			}
@@ -721,20 +731,31 @@ func inSet(m map[string]bool, ks []string) string {
 func (c03Checker) Run(tp *Tapes, opt RunOpt) *Outcome {
 	out := &Outcome{Faults: map[string]int{}}
 	sp := c03Gen(tp)
-	disk := &DiskSpec{Files: map[string][]FileVer{}}
+	disks := []*DiskSpec{{Files: map[string][]FileVer{}}, {Files: map[string][]FileVer{}}}
 	for _, k := range sortedKeys(sp.Files) {
-		disk.Files[k] = []FileVer{{Content: sp.Files[k]}}
+		d := 0
+		if i := strings.Index(k, "/"); i > 0 {
+			d = sp.OnDisk[k[:i]]
+		}
+		disks[d].Files[k] = []FileVer{{Content: sp.Files[k]}}
 	}
 	mk := func() *c03Side {
-		w := NewWorld([]*DiskSpec{disk})
+		w := NewWorld(disks)
 		s := &c03Side{w: w, tpls: map[int]*pongo2.Template{}}
-		shared := w.MakeLoader(0, LoaderSpec{Kind: sp.Loader, Disk: 0})
+		mkStack := func(id int) []pongo2.TemplateLoader {
+			var ls []pongo2.TemplateLoader
+			for d := 0; d < sp.NLoad; d++ {
+				ls = append(ls, w.MakeLoader(id*4+d, LoaderSpec{Kind: sp.Loader, Disk: d}))
+			}
+			return ls
+		}
+		shared := mkStack(0)
 		for i := 0; i < sp.NSets; i++ {
 			l := shared
 			if !sp.Shared {
-				l = w.MakeLoader(i, LoaderSpec{Kind: sp.Loader, Disk: 0})
+				l = mkStack(i)
 			}
-			s.sets = append(s.sets, pongo2.NewSet(fmt.Sprintf("S%d", i), l))
+			s.sets = append(s.sets, pongo2.NewSet(fmt.Sprintf("S%d", i), l...))
 		}
 		return s
 	}
@@ -743,7 +764,7 @@ func (c03Checker) Run(tp *Tapes, opt RunOpt) *Outcome {
 		out.probe("two_sets")
 	}
 	ph := newHasher()
-	ph.str(fmt.Sprintf("%d%s%v", sp.NSets, sp.Loader, sp.Shared))
+	ph.str(fmt.Sprintf("%d%s%v%d%v", sp.NSets, sp.Loader, sp.Shared, sp.NLoad, sp.OnDisk))
 	for _, op := range sp.Ops {
 		ph.str(fmt.Sprintf("%s|%d|%s|%s|%v|%d|%s", op.Kind, op.Set, op.Target, op.Via, op.Fault, op.ExecOf, op.Main))
 	}
